@@ -29,6 +29,11 @@ GXX = shutil.which("g++") or "g++"
 
 
 WORK = BUILD   # where scratch files / fact caches of this invocation live
+if os.environ.get("VERIF_EVIDENCE_DIR"):
+    # runs against a temporarily patched /repo (seeded changes) must not overwrite /verif/evidence
+    EVIDENCE = os.environ["VERIF_EVIDENCE_DIR"]
+    REPLAYS = os.path.join(EVIDENCE, "replays")
+    WORK = os.path.join(BUILD, "seedrun")
 
 
 def set_repo(path):
